@@ -49,6 +49,7 @@ NEEDS = {
  'C05c': ("NoteRestToken.export returns '*' early when no pitch/duration part is selected", "a decorated note/rest with DECORATION selected and none of its other parts"),
  'C06c': ("adjacent *v merged by common last spine operator instead of common header", "a split inside a split in a spine that is not the right-most, plus a spine selection"),
  'C07c': ("end stage compared with M-1 instead of M (off by one)", "to_measure == M-1 on a score with content after its last barline"),
+ 'C08c': ("is_signature_cancelled returns True when its look-ahead reaches the end of the excerpt", "a measure range in which some spine holds only chords (no single note or rest)"),
  'C09c': ("direction compared with 'is' (identity) instead of ==", "direction 'up' passed as a string built at run time"),
  'C10c': ("row-level is_barline flag short-circuits the elif chain that registers signatures", "a clef right of a '*' in a row before the first barline/data row, >= 2 spines"),
  'C11c': ("valid() expands and subtracts in place on the caller's set", "the same include set object reused after a call that excluded one of its members"),
